@@ -22,7 +22,7 @@ TRUSTED = ["the snapshot (bytes of data / mask / uncertainty, unit, meta, world 
            "coords, global coords, keys / mapping, common axis, aligned axes) is what 'observable' means"]
 ASSUMPTIONS = ["writes by the user are made only into the data of arithmetic results (numpy views returned by slicing share memory by design)",
                "operations that a given object cannot perform (e.g. crop on a WCS without inverse) are skipped, not counted"]
-FAMILIES = ["probe", "probe_coupled", "fits_sep", "fits_cel", "fits_rot", "radec", "gwcs"]
+FAMILIES = ["probe", "probe_coupled", "fits_sep", "fits_cel", "fits_rot", "fits_cd", "fits_cd", "radec", "gwcs"]
 
 
 def corpus():
